@@ -35,6 +35,10 @@
          (=> (< (lowerBound A o n x) n) (str.<= x (select A (sidx o (lowerBound A o n x)))))))
      :pattern ((lowerBound A o n x)))))
 ; membership is decided by looking at the lower bound (proved from the above, then used as an axiom)
+; lemma sortedShort
+(assert (forall ((A (Array Int String)) (o Int) (n Int))
+  (! (=> (<= n 1) (sortedStrs A o n))
+     :pattern ((sortedStrs A o n)))))
 ; lemma lowerBoundMembership
 (assert (forall ((A (Array Int String)) (o Int) (n Int) (x String))
   (! (=> (and (sortedStrs A o n) (>= n 0))
